@@ -49,8 +49,8 @@ func raceReports(dir string) (total int, distinct map[string]string) {
 }
 
 func runC17(c *Ctx) error {
-	nG := c.Pick(4, 30)
-	nItems := c.Pick(300, 2000)
+	nG := c.Pick(4, 16)
+	nItems := c.Pick(300, 1200)
 	G := c.Pick(16, 32)
 	repeat := c.Pick(3, 5)
 	c.Rule = fmt.Sprintf("batch driver built with -race; per grammar (plain and -zip tables, with and without error alternatives): a sequential pass records the expected observation of every input, then %d goroutines released by one barrier, each with its own lexer/parser/recorder objects (reused within the goroutine, sometimes fresh), run all inputs in a goroutine-specific order %d times, rendering every error (Error(), String(), DescribeExpected, DescribeToken, TokMap lookups); oracle: zero race-detector reports and every goroutine's observations equal the sequential ones; one evaluation = one Parse call made concurrently; non-trivial = input that was parsed by overlapping goroutines; distinct by (grammar, input); a run whose measured overlap is below 2 in-flight calls is inconclusive", G, repeat)
